@@ -172,6 +172,8 @@ def buildGame : List Cmd :=
   [ .setGlob gNmne (.env eNmneCfg),
     .setGlob gCapture (.env eNmneCfg),
     .newGame,
+    -- every NIC's PacketCapture registers its file loggers (when pcap logging is on)
+    .setGlob gPcapLoggers (.env eIo),
     .setLoc lState (.add (.add (.env eConfig) (.env eEpisode)) (.glob gImport)),
     .setLoc lStep (.lit 0),
     -- scripted agents draw their start step / start node / private generator seed
@@ -221,5 +223,42 @@ def refClass (g : Nat) : GClass :=
 def initInst (cfg nmne io : Val) : Inst :=
   { env := fun x => if x = eConfig then cfg else if x = eNmneCfg then nmne else if x = eIo then io else 0,
     loc := fun _ => 0 }
+
+end Primaite.Isolation
+
+namespace Primaite.Isolation
+
+/-! ### access summaries of a program (used to tie the skeleton to the regenerated inventory) -/
+
+def exprGlobs : Expr → List Nat
+  | .glob g => [g]
+  | .add x y => exprGlobs x ++ exprGlobs y
+  | .lcg x => exprGlobs x
+  | .ite c t e => exprGlobs c ++ exprGlobs t ++ exprGlobs e
+  | _ => []
+
+/-- globals read (outside `log`) before the program itself has written them -/
+def unprotectedReads : List Nat → List Cmd → List Nat
+  | _, [] => []
+  | W, .setEnv _ e :: r => (exprGlobs e).filter (fun g => !W.contains g) ++ unprotectedReads W r
+  | W, .setLoc _ e :: r => (exprGlobs e).filter (fun g => !W.contains g) ++ unprotectedReads W r
+  | W, .setGlob g e :: r => (exprGlobs e).filter (fun g => !W.contains g) ++ unprotectedReads (g :: W) r
+  | W, .emit e :: r => (exprGlobs e).filter (fun g => !W.contains g) ++ unprotectedReads W r
+  | W, .newGame :: r => unprotectedReads W r
+  | W, .log _ :: r => unprotectedReads W r
+
+def writesOf : List Cmd → List Nat
+  | [] => []
+  | .setGlob g _ :: r => g :: writesOf r
+  | _ :: r => writesOf r
+
+/-- operations of an environment instance -/
+inductive Phase | construct | reset | step
+  deriving DecidableEq, Repr
+
+def progOf : Phase → List Cmd
+  | .construct => constructProg
+  | .reset => resetProg
+  | .step => stepProg
 
 end Primaite.Isolation
